@@ -1,6 +1,10 @@
 package sym
 
 import (
+	"go/types"
+	"strconv"
+	"strings"
+
 	"golang.org/x/tools/go/ssa"
 )
 
@@ -61,6 +65,7 @@ func registerMoreIntrinsics(e *Engine) {
 		// StrHash never returns 0
 		ret(c.Ite(c.Eq(h, c.Const(0, 64)), c.Const(1, 64), h))
 	}
+	registerJSONStubs(e)
 	_ = c
 	// functions replaced by "return the zero value": runtime/reflection glue that only
 	// feeds the assembly hand-over or error texts
@@ -82,5 +87,179 @@ func zeroStub(st *State, fn *ssa.Function, args []Value, ret func(Value)) {
 		ret(st.e.zero(res.At(0).Type()))
 	default:
 		ret(st.e.zero(res))
+	}
+}
+
+// ---- contract stubs for the scalar text encoders (assembly on amd64) ----
+//
+// i64toa / f64toa / NoQuote / encodeBase64 append a short concrete placeholder that names a
+// "ghost token" holding the value they were asked to encode.  The harness oracles read the ghost
+// back (vrt.JNumInt ...) to check value exactness; natively the same calls parse the real text.
+
+func (st *State) appendToBufPtr(bufp Ptr, text string) int64 {
+	e := st.e
+	bt := types.NewSlice(types.Typ[types.Uint8])
+	sl := st.load(bufp, bt).(Slice)
+	off := st.concInt(sl.Len, "encoder stub: buffer length")
+	add := st.strConst(text).(Str)
+	ns := st.doAppend(sl, add, bt, types.Typ[types.String])
+	st.store(bufp, bt, ns)
+	_ = e
+	return off
+}
+
+// ghostBase keeps placeholder numbers apart from small literals the code writes itself (defaults).
+const ghostBase = 100000
+
+func (st *State) addGhost(g ghostTok) int {
+	st.ghosts = append(st.ghosts[:len(st.ghosts):len(st.ghosts)], g)
+	return len(st.ghosts) + ghostBase
+}
+
+func (st *State) ghostByText(text string, prefix string) *ghostTok {
+	if !strings.HasPrefix(text, prefix) {
+		return nil
+	}
+	n, err := strconv.Atoi(text[len(prefix):])
+	n -= ghostBase
+	if err != nil || n < 1 || n > len(st.ghosts) {
+		return nil
+	}
+	return &st.ghosts[n-1]
+}
+
+// concreteBytes reads a byte slice whose content must be concrete (placeholder text).
+func (st *State) concreteBytes(v Value) (string, bool) {
+	var p Ptr
+	var l *T
+	switch x := v.(type) {
+	case Slice:
+		p, l = x.P, x.Len
+	case Str:
+		p, l = x.P, x.Len
+	default:
+		return "", false
+	}
+	ls := st.simp(l)
+	if !ls.IsConst() || ls.K > 64 {
+		return "", false
+	}
+	if ls.K == 0 {
+		return "", true
+	}
+	bs := st.readBytes(p, int64(ls.K))
+	out := make([]byte, len(bs))
+	for i, b := range bs {
+		b = st.simp(b)
+		if !b.IsConst() {
+			return "", false
+		}
+		out[i] = byte(b.K)
+	}
+	return string(out), true
+}
+
+func (st *State) bytesToSlice(bs []*T, name string) Slice {
+	e := st.e
+	id := st.allocN(int64(len(bs)), nil, name)
+	if len(bs) > 0 {
+		st.writeBytes(Ptr{id, e.k64(0)}, bs)
+	}
+	return Slice{Ptr{id, e.k64(0)}, e.k64(int64(len(bs))), e.k64(int64(len(bs)))}
+}
+
+func registerJSONStubs(e *Engine) {
+	c := e.ctx
+	jp := dgo + "internal/json."
+	e.intr[jp+"i64toa"] = func(st *State, fn *ssa.Function, args []Value, ret func(Value)) {
+		idx := st.addGhost(ghostTok{kind: "int", val: st.asT(args[1])})
+		txt := strconv.Itoa(idx)
+		st.appendToBufPtr(st.asPtr(args[0]), txt)
+		ret(e.k64(int64(len(txt))))
+	}
+	e.intr[jp+"f64toa"] = func(st *State, fn *ssa.Function, args []Value, ret func(Value)) {
+		bits := st.asT(args[1])
+		// non-finite doubles: the amd64 encoder writes nothing and reports 0 bytes
+		exp := c.Extract(bits, 52, 11)
+		if st.decide(c.Eq(exp, c.Const(0x7ff, 11))) {
+			ret(e.k64(0))
+			return
+		}
+		idx := st.addGhost(ghostTok{kind: "float", val: bits})
+		txt := strconv.Itoa(idx)
+		st.appendToBufPtr(st.asPtr(args[0]), txt)
+		ret(e.k64(int64(len(txt))))
+	}
+	e.intr[jp+"NoQuote"] = func(st *State, fn *ssa.Function, args []Value, ret func(Value)) {
+		s := args[1].(Str)
+		n := st.concInt(s.Len, "NoQuote length")
+		if n == 0 {
+			ret(nil)
+			return
+		}
+		bs := st.readBytes(s.P, n)
+		idx := st.addGhost(ghostTok{kind: "str", bytes: bs})
+		st.appendToBufPtr(st.asPtr(args[0]), "g"+strconv.Itoa(idx))
+		ret(nil)
+	}
+	e.intr[jp+"encodeBase64"] = func(st *State, fn *ssa.Function, args []Value, ret func(Value)) {
+		s := args[0].(Slice)
+		n := st.concInt(s.Len, "base64 length")
+		var bs []*T
+		if n > 0 {
+			bs = st.readBytes(s.P, n)
+		}
+		idx := st.addGhost(ghostTok{kind: "b64", bytes: bs})
+		ret(st.strConst("b" + strconv.Itoa(idx)))
+	}
+	// oracle side
+	e.intr[vrtPath+".GhostReset"] = func(st *State, fn *ssa.Function, args []Value, ret func(Value)) {
+		st.ghosts = nil
+		ret(nil)
+	}
+	e.intr[vrtPath+".JNumInt"] = func(st *State, fn *ssa.Function, args []Value, ret func(Value)) {
+		txt, ok := st.concreteBytes(args[0])
+		if g := st.ghostByText(txt, ""); ok && g != nil && g.kind == "int" {
+			ret(Tuple{g.val, c.True})
+			return
+		}
+		// literal text written by the code itself (e.g. a default value)
+		if v, err := strconv.ParseInt(txt, 10, 64); ok && err == nil && v < ghostBase && v > -ghostBase {
+			ret(Tuple{c.Const(uint64(v), 64), c.True})
+			return
+		}
+		ret(Tuple{c.Const(0, 64), c.False})
+	}
+	e.intr[vrtPath+".JNumFloatBits"] = func(st *State, fn *ssa.Function, args []Value, ret func(Value)) {
+		txt, ok := st.concreteBytes(args[0])
+		if g := st.ghostByText(txt, ""); ok && g != nil && g.kind == "float" {
+			ret(Tuple{g.val, c.True})
+			return
+		}
+		ret(Tuple{c.Const(0, 64), c.False})
+	}
+	e.intr[vrtPath+".JStr"] = func(st *State, fn *ssa.Function, args []Value, ret func(Value)) {
+		txt, ok := st.concreteBytes(args[0])
+		if ok && txt == "" {
+			ret(Tuple{st.bytesToSlice(nil, "ghost string"), c.True})
+			return
+		}
+		if g := st.ghostByText(txt, "g"); ok && g != nil && g.kind == "str" {
+			ret(Tuple{st.bytesToSlice(g.bytes, "ghost string"), c.True})
+			return
+		}
+		ret(Tuple{e.zero(types.NewSlice(types.Typ[types.Uint8])), c.False})
+	}
+	e.intr[vrtPath+".JBase64"] = func(st *State, fn *ssa.Function, args []Value, ret func(Value)) {
+		txt, ok := st.concreteBytes(args[0])
+		if ok && txt == "" {
+			ret(Tuple{st.bytesToSlice(nil, "ghost binary"), c.True})
+			return
+		}
+		if g := st.ghostByText(txt, "b"); ok && g != nil && g.kind == "b64" {
+			ret(Tuple{st.bytesToSlice(g.bytes, "ghost binary"), c.True})
+			return
+		}
+		ret(Tuple{e.zero(types.NewSlice(types.Typ[types.Uint8])), c.False})
 	}
 }
